@@ -554,5 +554,5 @@ func main() {
 			run.Sample(json.RawMessage(raw))
 		}
 	})
-	run.Finish("cases = ElfLoad.tla: 8 segment layouts (ld-style page-aligned, lld-style segments sharing file pages, bss, executable segment starting mid page after read-only data, huge-page vaddr gap, executable segments with a zero-filled tail of several pages) x {ET_EXEC, ET_DYN with biases 0 / 5 / 77 pages, optionally plus a 47-bit constant} x page-granular splits of the executable mapping x addresses at segment and page edges, each translated through binutils.Open + ObjAddr in ascending and descending order on one ObjFile; symbol tables of 1-2 (thorough 3) symbols with duplicates, zero sizes, code and data x 12 lookup addresses through a fake nm, and through a scripted addr2line whose names are completed from the nm table (PATH emptied so that no llvm-symbolizer is found); kernel images (GenKernel: 3 layouts x ET_EXEC/ET_DYN x _stext at 0 / 0x198 / 0x1000 / 0x1198 past the text segment x relocation symbol unnamed / _stext / _text x KASLR slides 0 / 64 KiB / 16 MiB with mapping offset 0 / start / ppc64 PAGE_OFFSET, or remapped into page 0) written with a .text section and a symbol table, opened as nm-backed and as addr2line-backed object; non-trivial = distinct (type, layout, mapping, address) / (table, query)")
+	run.Finish("cases = ElfLoad.tla: 10 segment layouts (program headers in vaddr order but not in file order, ld-style page-aligned, lld-style segments sharing file pages, bss, executable segment starting mid page after read-only data, huge-page vaddr gap, executable segments with a zero-filled tail of several pages) x {ET_EXEC, ET_DYN with biases 0 / 5 / 77 pages, optionally plus a 47-bit constant} x page-granular splits of the executable mapping x addresses at segment and page edges, each translated through binutils.Open + ObjAddr in ascending and descending order on one ObjFile; symbol tables of 1-2 (thorough 3) symbols with duplicates, zero sizes, code and data x 12 lookup addresses through a fake nm, and through a scripted addr2line whose names are completed from the nm table (PATH emptied so that no llvm-symbolizer is found); kernel images (GenKernel: 3 layouts x ET_EXEC/ET_DYN x _stext at 0 / 0x198 / 0x1000 / 0x1198 past the text segment x relocation symbol unnamed / _stext / _text x KASLR slides 0 / 64 KiB / 16 MiB with mapping offset 0 / start / ppc64 PAGE_OFFSET, or remapped into page 0) written with a .text section and a symbol table, opened as nm-backed and as addr2line-backed object; non-trivial = distinct (type, layout, mapping, address) / (table, query)")
 }
